@@ -12,6 +12,7 @@ import QuaiVerif.Driver.Utxo
 import QuaiVerif.Driver.Mem
 import QuaiVerif.Driver.Ledger
 import QuaiVerif.Driver.Validate
+import QuaiVerif.Driver.Reorg
 /- qvdriver: `qvdriver <area>` reads protocol lines on stdin, answers one line per line. -/
 open QuaiVerif
 
@@ -30,6 +31,7 @@ def main (args : List String) : IO UInt32 := do
   | ["lockup"] => ioLoop Lockup.step stdin stdout {}; return 0
   | ["utxo"] => ioLoop Utxo.step stdin stdout {}; return 0
   | ["mem"] => ioLoop Mem.step' stdin stdout (); return 0
+  | ["c10"] => ioLoop Reorg.step stdin stdout {}; return 0
   | ["c07"] => ioLoop Validate.step stdin stdout {}; return 0
   | ["c06"] => ioLoop Ledger.step stdin stdout {}; return 0
   | ["addr"] => ioLoop Addr.step stdin stdout {}; return 0
